@@ -143,6 +143,8 @@ def gen(tier, seed):
 def run(tier, seed):
     env.setup()
     res = Result("C19", tier, seed)
+    from .. import gjkloop
+    gjkloop.model_check(res, tier)        # design-level termination of the Jolt GJK loops (invariant Terminates, all tie-breaks)
     recs, meta = gen(tier, seed)
     byid = {r["id"]: r for r in recs}
     rejects = trace.judge(recs, "narrow", "NarrowTrace", "NarrowTrace.cfg", "c19", res)
